@@ -21,6 +21,8 @@ import (
 	"net/http"
 	"net/http/httptest"
 	"regexp"
+	"runtime"
+	"runtime/debug"
 	"sort"
 	"strconv"
 	"strings"
@@ -874,6 +876,19 @@ func vf37HTTPCall(c *vf37HTTPClient, call int, k *vf37Kind, reqBody []byte) {
 			callTok = ncall
 		}
 	}
+}
+
+// vf37IsolateGlobals makes an execution independent of process-global caches
+// in the code under test that survive from one execution to the next:
+// sync.Pool contents are dropped by two collections (primary + victim cache),
+// and the collector is then held off for the execution so that a pool is not
+// emptied at a timing-dependent point in the middle of a history. The returned
+// func restores the collector.
+func vf37IsolateGlobals() func() {
+	runtime.GC()
+	runtime.GC()
+	old := debug.SetGCPercent(-1)
+	return func() { debug.SetGCPercent(old) }
 }
 
 func vf37RunHistory(hist []*vf37Kind, http bool, env *vf37Env) *vf37Run {
